@@ -11,10 +11,10 @@ from sa.core import AnalysisError, Repo, Report, call_name, unparse, walk_no_nes
 from sa.selftest import Edit, Variant
 from sa.typestate import ALL, CacheTypestate
 
-from sa.texts import T as _T
+from sa.texts import T as _TX
 
-EXPLANATION = _T["C15"]["explanation"] + " Not decided: " + _T["C15"]["not_decided"] + "."
-ASSUMPTIONS = _T["C15"]["assumptions"]
+EXPLANATION = _TX["C15"]["explanation"] + " Not decided: " + _TX["C15"]["not_decided"] + "."
+ASSUMPTIONS = _TX["C15"]["assumptions"]
 P = "C15"
 PURE_QUERIES = {
     "xpath": "pure query: returns live nodes, does not alter the document (reads the tree even when the cache is dirty)",
